@@ -252,12 +252,23 @@ def run_case(spec):
     dp.a.close()
     dp.b.close()
     sch.drain(120.0, 8000, until=lambda: dp.a.closed and dp.b.closed)
+    sch.drain(5.0, 2000)
+    # the wormholes are closed: no subchannel can carry anything any more, so every protocol must have been told
+    still_open = 0
+    if dp.a.closed and dp.b.closed:
+        for p_ in all_protos:
+            kinds_ = [e[0] for e in p_.events]
+            if "made" in kinds_ and "lost" not in kinds_ and not isinstance(p_, HalfRecProto):
+                still_open += 1
+                if still_open == 1:
+                    viol.append({"key": "C13/no-connectionLost-when-the-wormhole-closes", "msg": "%s: both wormholes are closed, the protocol saw %s and was never told that its connection is gone" % (p_.name, kinds_[-3:]),
+                                 "witness": wit()})
     world.finish()
     nsub = len(_created)
     nontrivial = trace_digest(sch) if (nsub and closes) else None
     benign = {"CloseForMissingSubchannelError", "DataForMissingSubchannelError"}
     return {"violations": viol, "nontrivial": nontrivial,
-            "counters": {"subchannels": nsub, "closes": closes, "writes_after_close": writes_after_close, "writes_right_after_close": len(early_wac), "unencodable_names_tried": bad_name["tried"], "calls_from_inside_protocol_callbacks": drv.reactions_done, "errors_escaping_connectionLost": drv.escaped, "false_factories": drv.falsy_factories, "undeclared_opens": undeclared,
+            "counters": {"subchannels": nsub, "closes": closes, "writes_after_close": writes_after_close, "writes_right_after_close": len(early_wac), "unencodable_names_tried": bad_name["tried"], "subchannels_open_at_wormhole_close": still_open, "calls_from_inside_protocol_callbacks": drv.reactions_done, "errors_escaping_connectionLost": drv.escaped, "false_factories": drv.falsy_factories, "undeclared_opens": undeclared,
                          "late_listens": late_listens, "half_protocols": sum(isinstance(p, HalfRecProto) for p in all_protos),
                          "opens": len(drv.opens), "notrans_seen": len(MON.notrans)},
             "sets": {"write_after_close_errors": sorted({e for (_, e, _) in wac_errors if e} | {e[1] for e in early_wac if e[1]}),
